@@ -209,6 +209,8 @@ func runC19(c *report.Ctx) {
 
 	// ---- (7) ready set: a half-removed wallet must not receive credits (its balance row is gone) --------
 	ruleReadySet(c, true, true)
+	ruleInsufficientAgainstRequested(c)
+	ruleNilBytesNotDecoded(c)
 }
 
 func firstDefer(f *ssa.Function) *ssa.Defer {
